@@ -65,7 +65,7 @@ impl EmmyLuaEmitter {
 
         // Use ["name"] form for field names with special characters
         let formatted_name = if needs_bracket_notation(name) {
-            format!("[\"{}\"]", name)
+            format!("[{}]", quote_string(name))
         } else {
             name.to_string()
         };
@@ -87,10 +87,10 @@ impl EmmyLuaEmitter {
     pub fn write_alias_variant(&mut self, value: &str, description: Option<&str>) {
         match description {
             Some(desc) => {
-                let _ = writeln!(self.output, "---| \"{}\" # {}", value, desc);
+                let _ = writeln!(self.output, "---| {} # {}", quote_string(value), desc);
             }
             None => {
-                let _ = writeln!(self.output, "---| \"{}\"", value);
+                let _ = writeln!(self.output, "---| {}", quote_string(value));
             }
         }
     }
@@ -116,6 +116,27 @@ impl EmmyLuaEmitter {
     pub fn finish(self) -> String {
         self.output
     }
+}
+
+/// Write `value` as a double-quoted string literal that stays one token on one line.
+pub fn quote_string(value: &str) -> String {
+    let mut literal = String::with_capacity(value.len() + 2);
+    literal.push('"');
+    for c in value.chars() {
+        match c {
+            '\\' => literal.push_str("\\\\"),
+            '"' => literal.push_str("\\\""),
+            '\n' => literal.push_str("\\n"),
+            '\r' => literal.push_str("\\r"),
+            '\t' => literal.push_str("\\t"),
+            c if c.is_ascii_control() => {
+                let _ = write!(literal, "\\x{:02X}", c as u32);
+            }
+            c => literal.push(c),
+        }
+    }
+    literal.push('"');
+    literal
 }
 
 /// Check if a field name needs bracket notation (contains special characters).
